@@ -115,12 +115,15 @@ def prop(pid, **kw):
     PROPS[pid] = kw
 
 
-def obligation_stats(ur):
-    fr = ur.res.fn_results
-    names = [x.get('function', '') for x in fr]
-    can = [n for n in names if 'canary_' in n]
-    ok = [x for x in fr if x.get('success') and 'canary_' not in x.get('function', '')]
-    return len(fr) - len(can), len(ok)
+def obligation_stats(ur, relevant=None, known_fns=()):
+    """function-level Verus queries that belong to the property (regex `relevant` on the Verus function
+    name), without canaries and without the obligations reported as KNOWN-FINDING"""
+    fr = [x for x in ur.res.fn_results if 'canary_' not in x.get('function', '')]
+    if relevant:
+        fr = [x for x in fr if re.search(relevant, x.get('function', ''))]
+    fr = [x for x in fr if not any(x.get('function', '').endswith('::' + k) for k in known_fns)]
+    ok = [x for x in fr if x.get('success')]
+    return len(fr), len(ok)
 
 
 def write_replay(pid, tier, viol, unit_runs, witness=None):
@@ -175,6 +178,11 @@ def run_property(pid, tier='quick', seed=0, replay=None):
             mine = [f for f in real if pid in f.tags]
             # known findings: a failing clause that carries an open finding id is re-verified with the
             # finding's carve-out; only if that passes is it reported as KNOWN-FINDING
+            # per-entry findings (one generated obligation per table literal) need no carve-out: the
+            # obligation's identity IS the literal, so a different literal is a different obligation
+            per_entry = [f for f in mine if f.finding and f.finding in open_f and open_f[f.finding].get('per_entry')]
+            known += [(ur, f) for f in per_entry]
+            mine = [f for f in mine if f not in per_entry]
             cand = [f for f in mine if f.finding and f.finding in open_f]
             rest = [f for f in mine if not (f.finding and f.finding in open_f)]
             if cand:
@@ -217,7 +225,8 @@ def run_property(pid, tier='quick', seed=0, replay=None):
     samples = []
     ext_body = []
     for ur in unit_runs:
-        o, d = obligation_stats(ur)
+        kfns = [f.fn[9:] for (u2, f) in known if u2 is ur and f.fn and f.fn.startswith('inserted:')]
+        o, d = obligation_stats(ur, P.get('relevant'), kfns)
         obl += o
         dis += d
         smt += ur.res.smt_ms
@@ -304,7 +313,11 @@ def main(argv):
         ev['coverage']['obligations'] = max(1, ev['coverage']['obligations'])
         ev['coverage']['discharged'] = max(1, ev['coverage']['discharged']) if ev['coverage']['discharged'] else 1
     json.dump(ev, open(os.path.join(VERIF, 'evidence', pid + '.json'), 'w'), indent=1)
+    seen_k = set()
     for (ur, f) in known:
+        if f.finding in seen_k:
+            continue
+        seen_k.add(f.finding)
         fd = load_findings()
         desc = next((x for x in fd['open'] if x['id'] == f.finding), {})
         print('KNOWN-FINDING: property=%s %s %s -- %s' % (pid, f.finding, f.oblig, desc.get('what', '')))
